@@ -10,6 +10,7 @@
 #include <linux/futex.h>
 #include <malloc.h>
 #include <poll.h>
+#include <execinfo.h>
 #include <pthread.h>
 #include <sched.h>
 #include <semaphore.h>
@@ -1377,8 +1378,11 @@ static void mc_free(void *p, void *pc)
   if (det_on && me >= 0 && !in_rt) {
     // the freeing thread's own buffered stores precede the free in program order and a store buffer is
     // FIFO (the allocator's own stores and locked operations come after them): they commit first
-    vw_flush();
-    sb_flush();
+    if (active && (vw_pending || !SB[me].empty())) {
+      RtGuard g;  // the bookkeeping allocates: its own new/delete must not come back here
+      vw_flush();
+      sb_flush();
+    }
     size_t n = malloc_usable_size(p);
     {
       RtGuard g;
@@ -1572,7 +1576,14 @@ static void crash_handler(int signo)
 {
   char b[64];
   snprintf(b, sizeof b, "crash|signal %d (%s)", signo, strsignal(signo));
-  finish_execution(6, b, b);
+  // the detail carries the return addresses (resolved with addr2line by whoever reads the replay)
+  char d[640];
+  int len = snprintf(d, sizeof d, "%s; thread %d; backtrace", b, me);
+  void *bt[20];
+  int n = backtrace(bt, 20);
+  for (int i = 0; i < n && len < (int)sizeof d - 20; i++)
+    len += snprintf(d + len, sizeof d - len, " %p", bt[i]);
+  finish_execution(6, b, d);
 }
 
 // =========================================================================================
@@ -1924,8 +1935,8 @@ static void run_level(ScenState &S)
           Res r2 = parse_res(run_child(S.sc, r.choices, false, &st), st);
           same = r2.code == r.code && r2.sig == r.sig && r2.events == r.events && r2.choices == r.choices;
           if (!same)
-            fprintf(stderr, "replay mismatch: code %d/%d sig [%s]/[%s] events [%s]/[%s] choices [%s]/[%s]\n", r.code, r2.code, r.sig.c_str(), r2.sig.c_str(),
-                r.events.c_str(), r2.events.c_str(), enc_choices(r.choices).c_str(), enc_choices(r2.choices).c_str());
+            fprintf(stderr, "replay mismatch: code %d/%d sig [%s]/[%s] events [%s]/[%s] choices [%s]/[%s] detail [%s]/[%s]\n", r.code, r2.code, r.sig.c_str(), r2.sig.c_str(),
+                r.events.c_str(), r2.events.c_str(), enc_choices(r.choices).c_str(), enc_choices(r2.choices).c_str(), r.detail.c_str(), r2.detail.c_str());
         }
         if (!same) {
           printf("@INTERNAL nondeterministic replay of a failing schedule in %s: %s\n", S.sc->name, sig.c_str());
